@@ -36,7 +36,7 @@ Bodies  == IF Thorough
                  BurnBody(0, T2, Pad("a3"), 1, Pad("x2")), BurnBody(0, T1, B("j", "a3"), 2, Pad("x2")),
                  Raw(1, 132), Raw(1, 131)}
 Rcpts   == IF Thorough THEN {ModulePadded, R1, Pad("a1"), B("j", MODULE_ACC)} ELSE {ModulePadded, R1}
-Wires   == [k : {"msg"}, ver : {0, 1}, src : {"d1"}, dst : {NOBLE, "d2"}, nonce : {0}, sender : {M1, M2},
+Wires   == [k : {"msg"}, ver : {0, 1}, src : {"d1"}, dst : {NOBLE, "d2"}, nonce : {0}, sender : {M1, M2, Pad("m1")},
             rcpt : Rcpts, caller : Callers, body : Bodies]
            \cup {[k |-> "short", len |-> n, id |-> 1] : n \in {0, 115}}
 
